@@ -701,6 +701,43 @@ pub fn large_stateful_split_case(rng: &mut Rng) -> Case {
     Case { bytes: b, sett: Sett::default(), tag: "nomodel:large-stateful-split:iso-2022-jp".into() }
 }
 
+/// A legacy single-byte text that (wrongly) declares utf-8 / ascii, or repeats the encoding of a mark it starts
+/// with, or names a label that canonicalises to something the detector does not support: the declaration does not
+/// check out, detection must go on through the code pages as if it were not there
+pub fn misdeclared_legacy_case(rng: &mut Rng) -> Case {
+    let (name, enc) = *rng.pick(&[("french", "iso-8859-1"), ("german", "windows-1252"), ("russian", "windows-1251"), ("greek", "iso-8859-7"), ("polish", "iso-8859-2"), ("turkish", "windows-1254")]);
+    let base = TEXTS.iter().find(|(n, _)| *n == name).map(|x| x.1).unwrap_or(TEXTS[0].1);
+    let k = rng.range(150, 900);
+    let body = enc_bytes_lossy(&stretch(rng, base, k), enc);
+    let (with_mark, label) = *rng.pick(&[(false, "utf-8"), (false, "ascii"), (true, "utf-8"), (true, "UTF8"), (false, "iso-2022-kr"), (true, "hz-gb-2312"), (false, "us-ascii"), (true, "unicode-1-1-utf-8"), (true, "replacement"), (true, "ascii")]);
+    let mut b: Vec<u8> = if with_mark { MARKS[0].1.to_vec() } else { vec![] };
+    b.extend_from_slice(match rng.below(3) {
+        0 => format!("<?xml version=\"1.0\" encoding=\"{}\"?>\n", label),
+        1 => format!("<meta charset={}>\n", label),
+        _ => format!("# -*- coding: {} -*-\n", label),
+    }.as_bytes());
+    b.extend_from_slice(&body);
+    Case { bytes: b, sett: Sett::default(), tag: format!("misdeclared-legacy:{}:{}{}", enc, label, if with_mark { "+mark" } else { "" }) }
+}
+
+/// ISO-2022-JP byte strings that end inside an escape sequence or inside a two-byte character
+pub fn truncated_escape_cases() -> Vec<Vec<u8>> {
+    let jp = "\u{3053}\u{3093}\u{306b}\u{3061}\u{306f}\u{4e16}\u{754c}";
+    let good = enc_bytes_lossy(&format!("Subject: test\n\n{} words {}\n", jp, jp), "iso-2022-jp");
+    let tails: &[&[u8]] = &[b"\x1b", b"\x1b$", b"\x1b$(", b"\x1b(", b"\x1b$B", b"\x1b$B$", b"\x1b$(D", b"\x1b$(D\x22", b"\x1b(I", b"\x1b(I\x21", b"\x1b$A", b"\x1b.", b"\x1bN", b"\x0e", b"\x1b$)C"];
+    let mut v = vec![];
+    for t in tails {
+        v.push(t.to_vec());
+        let mut b = good.clone();
+        b.extend_from_slice(t);
+        v.push(b);
+        let mut b = b"plain ascii first ".to_vec();
+        b.extend_from_slice(t);
+        v.push(b);
+    }
+    v
+}
+
 pub fn declared_self_case(rng: &mut Rng) -> Case {
     let label = *rng.pick(&["utf-8", "utf8", "UTF-8", "ascii", "us-ascii", "unicode-1-1-utf-8", "ANSI_X3.4-1968", "utf-8"]);
     let is_utf8 = label.to_ascii_lowercase().contains("utf");
